@@ -35,7 +35,21 @@ def find_likely_fn(prog, which):
                 and s['inputs'][0].endswith('Language') and 'Script' in s['inputs'][1] and 'Region' in s['inputs'][2] \
                 and s['output'].startswith('std::option::Option<('):
             cands.append(n)
-    searchers = [n for n in cands if any(t['k'] == 'call' and 'binary_search' in (t['r'] or t['f']) for t in (bl['term'] for bl in prog.bodies[n]['mir']['blocks']))]
+    # maximize searches the tables (directly, in its closures or through private helpers) and calls no other candidate; minimize calls maximize
+    from .. import callgraph
+    cg = callgraph.CallGraph(prog)
+
+    def reach(n):
+        return cg.reachable([n])
+
+    def searches(n):
+        for f in reach(n):
+            b = prog.bodies.get(f)
+            if b and any(t['k'] == 'call' and 'binary_search' in (t['r'] or t['f'] or '') for t in (bl['term'] for bl in b['mir']['blocks'])):
+                return True
+        return False
+    callers = [n for n in cands if any(m != n and m in reach(n) for m in cands)]
+    searchers = [n for n in cands if n not in callers and searches(n)]
     if which == 'maximize':
         return searchers
     return [n for n in cands if n not in searchers]
